@@ -326,7 +326,14 @@ pub fn analyze(
                     context.skip = true;
                     skipped += 1;
                 }
-                filelist_excluded.insert(context.path.src.clone());
+            }
+        }
+        // From `paths`, not `contexts`: a restored file has no context, yet a
+        // clean run would have skipped it and left it out of the filelist.
+        for path in paths {
+            let path_id = resource_table::insert_path(&path.src);
+            if test_file_ids.contains(&path_id) && !matching_file_ids.contains(&path_id) {
+                filelist_excluded.insert(path.src.clone());
             }
         }
         debug!(
